@@ -131,6 +131,13 @@ func runStream(t *testing.T, evs []auditgen.Group, stream []srec, insertAt int, 
 				case "empty-cred":
 					bl = mkLogin(77, "2")
 					bl.CredUserID = ""
+				case "empty-cred-copy-of-a-waiting-login":
+					// a valid login of a pid without session arrives and waits; then the same login once more
+					// (same event, same pid) but without its credential id
+					v := mkLogin(77, "2")
+					r.offerLogin(v)
+					bl = v
+					bl.CredUserID = ""
 				}
 				r.offerLogin(bl)
 				expectStop = "invalid login"
@@ -344,7 +351,7 @@ func runC15(t *testing.T, run *mc.Run) int {
 			}
 		}
 		for pos := 0; pos <= len(stream); pos++ {
-			for _, bl := range []string{"nil-source", "zero-pid", "empty-cred"} {
+			for _, bl := range []string{"nil-source", "zero-pid", "empty-cred", "empty-cred-copy-of-a-waiting-login"} {
 				if !run.Thorough() && pos%3 != 0 {
 					continue
 				}
@@ -628,7 +635,7 @@ func runC15(t *testing.T, run *mc.Run) int {
 	}
 	run.Note("observation, not judged (the statement speaks of non-empty lines): a blank record delivered as \"\\n\": %s", short(blank, 160))
 	cov := mc.Coverage{Level: "model_checking", States: len(shapes), Transitions: n, Traces: n, Evaluations: n, Distinct: interleaved, Exhaustive: complete, Samples: samples,
-		Rule:  fmt.Sprintf("every merge of the record sequences of %d kernel events (5-record SYSCALL group, simple record, 4-record SYSCALL group ending in EOE) that keeps each event's internal order, x {no fault (every merge); for every merge (thorough) / every 25th merge (quick): each of 10 malformed line shapes at every position; output write failing at the k-th write for every k (login first, and login last so that the failure hits the release of held events), with the plain error and with errors that also match context.Canceled / DeadlineExceeded / ErrClosedPipe / EOF / EPIPE; 3 kinds of invalid login at every position; records of every length within 2 bytes of 1024 / 4096 / 8192 / 8970 / 9012 / 16384 / 65536 (thorough: every length 8900..9100), with and without their newline; cancellation 0 / 1 / 1900 ms after the last line while a simple record, an unfinished SYSCALL group or both are still held by the reassembler (they are flushed to the correlator)}, delivered line by line to the real Auditd.Read in a synctest bubble ('does not return' = durably blocked). states = distinct stream shapes; distinct_nontrivial = shapes in which records of different kernel events interleave", nev),
+		Rule:  fmt.Sprintf("every merge of the record sequences of %d kernel events (5-record SYSCALL group, simple record, 4-record SYSCALL group ending in EOE) that keeps each event's internal order, x {no fault (every merge); for every merge (thorough) / every 25th merge (quick): each of 10 malformed line shapes at every position; output write failing at the k-th write for every k (login first, and login last so that the failure hits the release of held events), with the plain error and with errors that also match context.Canceled / DeadlineExceeded / ErrClosedPipe / EOF / EPIPE; 4 kinds of invalid login (no source, pid 0, no credential id, and a copy of a login that is waiting with its credential id removed) at every position; records of every length within 2 bytes of 1024 / 4096 / 8192 / 8970 / 9012 / 16384 / 65536 (thorough: every length 8900..9100), with and without their newline; cancellation 0 / 1 / 1900 ms after the last line while a simple record, an unfinished SYSCALL group or both are still held by the reassembler (they are flushed to the correlator)}, delivered line by line to the real Auditd.Read in a synctest bubble ('does not return' = durably blocked). states = distinct stream shapes; distinct_nontrivial = shapes in which records of different kernel events interleave", nev),
 		Extra: map[string]any{"kernel_events": nev, "stream_shapes": len(shapes), "malformed_shapes": len(malformed)}}
 	cov.Assumptions = []string{"testing/synctest durable-blocking semantics and virtual clock", "events are observed through the real tracker with the session bound, i.e. at the output writer"}
 	return run.Finish(cov)
